@@ -28,7 +28,7 @@ RULE = ("per run a history of 3-9 operations over up to 3 BEC2 files sharing a p
 REAL = ["bec2format.bec2file", "bec2format.bf3file", "bec2format.crypto", "register_crypto_plugin", "pyaes", "ecdsa"]
 STUBS = ["medium: SimFS", "RNG: SimRng (never repeats, logs call-site class)", "key-generation observer",
          "device model: RefAES/RefCRC/RefP256"]
-PROBES = ["runs-with-assertions-disabled", "writer-keystore", "same-object-two-writer-threads", "fork-child-and-parent-draw-keys", "bf3-object-shared-between-files", "splice-insert-same-tag", "keyless-constructor", "repeated-write-same-object", "rewrite-with-opaque-block", "splice-different-keys",
+PROBES = ["runs-with-assertions-disabled", "block-with-unknown-tag", "writer-keystore", "same-object-two-writer-threads", "fork-child-and-parent-draw-keys", "bf3-object-shared-between-files", "splice-insert-same-tag", "keyless-constructor", "repeated-write-same-object", "rewrite-with-opaque-block", "splice-different-keys",
           "splice-equal-keys", "splice-rejected", "ecc-default-recipient-unwrapped", "three-blocks-unwrapped",
           "two-files-distinct-keys", "ephemeral-points-compared"]
 ASSUMPTIONS = ["'rejected' for a spliced header means: read with decryptors for both blocks raises"]
@@ -445,6 +445,10 @@ def run(case):
                     continue
                 tagA, valA = A["hdr"][A["blocks"].index(b)]
                 hdr2 = list(B["hdr"])
+                foreign = (nops + b) % 3 == 0
+                if foreign:
+                    # a block of a kind this library version does not know (another tool added it)
+                    tagA, valA = [0x21, 0x7F, 0x04][(nops + b) % 3 if False else b % 3], valA[: 1 + len(valA) % 40]
                 hdr2.insert(0 if where == "front" else len(hdr2), (tagA, valA))
                 header = b"BEC2\0" + b"".join(bytes([t, len(v)]) + v for t, v in hdr2) + b"\0\0"
                 body = B["obj"].bf3file.to_binary(len(header), B["key"])
@@ -457,6 +461,23 @@ def run(case):
                         decs.append(dec_all[x])
                 same = A["key"] == B["key"]
                 sametag = any(pool[x]["t"] == pool[b]["t"] for x in B["blocks"])
+                if foreign:
+                    out.probes["block-with-unknown-tag"] += 1
+                    decs = [dec_all[x] for x in others]      # only the file's own decryptors
+                    try:
+                        got = bf.Bec2File.read_file("inserted.bec2", decs, True)
+                    except SimCrash:
+                        raise
+                    except Exception as e:
+                        out.fail("C07.opaque-kept", "unknown-tag-unreadable", "a file carrying an auth block with the "
+                                 "unknown tag %02x cannot be read any more: %s: %s" % (tagA, type(e).__name__, e))
+                        continue
+                    kept = [x for x in got.auth_blocks.values() if x.tag == tagA]
+                    if not kept or bytes(kept[0].pack(got.session_key, [])) != valA:
+                        out.fail("C07.opaque-kept", "unknown-tag-not-kept", "the block with the unknown tag %02x is not "
+                                 "kept byte-for-byte" % tagA)
+                    out.ev("foreign-block", tagA, len(valA))
+                    continue
                 try:
                     bf.Bec2File.read_file("inserted.bec2", decs, True)
                     res = "accepted"
